@@ -117,7 +117,26 @@ var (
 // tokens returns the leaf tokens in order of appearance. In the markdown rendering a table cell is
 // followed by " |" and in the flattened document by " rs=": both are cut by the delimiter class
 // (space). Trailing markdown escapes do not occur (the suffix alphabet has no '|').
-func tokens(s string) []string { return tokRe.FindAllString(s, -1) }
+//
+// Text of neighbouring elements may come back without a separator between them ("Tk01Tk02": e.g. an item's own
+// text directly followed by a <section> or <pre> child in markup without whitespace). The statement asks for the
+// text to be returned once and in order, not for a separator, so a run is split at every token start.
+func tokens(s string) []string {
+	var out []string
+	for _, run := range tokRe.FindAllString(s, -1) {
+		start := 0
+		for _, loc := range idRe.FindAllStringIndex(run, -1) {
+			if loc[0] > start {
+				out = append(out, run[start:loc[0]])
+			}
+			start = loc[0]
+		}
+		out = append(out, run[start:])
+	}
+	return out
+}
+
+var idRe = regexp.MustCompile(`Tk[0-9][0-9]`)
 
 // lines returns the non-empty lines of a rendering: every renderer writes one unit per line
 // (paragraph, heading, list item, table row).
